@@ -91,3 +91,47 @@ pub fn wrong_edge(flag: Option<u32>, name: &str) -> String {
         _ => format!("#/ref/{name}"),
     }
 }
+
+// ---- attached => consumed: a separator pushed before the following element is parsed, old cursor returned ----
+#[derive(Clone, Copy)]
+pub struct Cursor(pub usize);
+pub struct ParserMatch(pub u32);
+pub type ParserResult = Result<(Cursor, ParserMatch), ()>;
+
+pub fn stale_cursor_after_push(
+    mut s: Cursor,
+    ns: &mut Vec<ParserMatch>,
+    elem: fn(Cursor) -> ParserResult,
+    sep: fn(Cursor) -> ParserResult,
+) -> Result<Cursor, ()> {
+    let (s0, n) = elem(s)?;
+    ns.push(n);
+    s = s0;
+    loop {
+        let Ok((s1, n0)) = sep(s) else { break };
+        ns.push(n0);
+        let Ok((s2, n1)) = elem(s1) else { break };
+        ns.push(n1);
+        s = s2;
+    }
+    Ok(s)
+}
+
+pub fn cursor_follows_push(
+    mut s: Cursor,
+    ns: &mut Vec<ParserMatch>,
+    elem: fn(Cursor) -> ParserResult,
+    sep: fn(Cursor) -> ParserResult,
+) -> Result<Cursor, ()> {
+    let (s0, n) = elem(s)?;
+    ns.push(n);
+    s = s0;
+    loop {
+        let Ok((s1, n0)) = sep(s) else { break };
+        let Ok((s2, n1)) = elem(s1) else { break };
+        ns.push(n0);
+        ns.push(n1);
+        s = s2;
+    }
+    Ok(s)
+}
